@@ -94,6 +94,27 @@ theorem discrete_sum_excluding_tmax_lt_one (comps : List (Comp ℝ)) (hne : comp
 -- non-vacuity: the `Admissible` instance above with `Δ = 0.25`
 example : (0 : ℝ) < 0.25 := by norm_num
 
+/-- `t_max = inf`, continuous model: without an upper limit the density the code evaluates
+    (`np.exp(-inf) = 0` in the window probability) integrates to one over `(tmin, ∞)` — improper integral, every
+    admissible parameter set. -/
+theorem continuous_integrates_to_one_unbounded (comps : List (Comp ℝ)) (hne : comps ≠ []) (hadm : Admissible comps)
+    (tmin : ℝ) : ∫ t in Set.Ioi tmin, pdfCont comps tmin none t = 1 := by
+  have hfun : (fun t => pdfCont comps tmin none t) = fun t => specPdfCont comps tmin none t :=
+    funext fun t => pdfCont_eq_spec comps hne hadm tmin t none fun m hm => by cases hm
+  rw [hfun]
+  exact integral_Ioi_specPdfCont comps hne hadm tmin
+
+/-- `t_max = inf`, discretised model: the probability masses of the observable dwell times
+    `tmin, tmin + Δ, tmin + 2Δ, …` form a series with sum one (geometric series in `x = e^{−Δ/τ}`). -/
+theorem discrete_sums_to_one_unbounded (comps : List (Comp ℝ)) (hne : comps ≠ []) (hadm : Admissible comps)
+    (tmin step : ℝ) (hs : 0 < step) :
+    HasSum (fun k : ℕ => pmfDisc comps tmin none step (tmin + (k : ℝ) * step)) 1 := by
+  have hfun : (fun k : ℕ => pmfDisc comps tmin none step (tmin + (k : ℝ) * step))
+      = fun k : ℕ => specPmfDisc comps tmin none step (tmin + (k : ℝ) * step) :=
+    funext fun k => pmfDisc_eq_spec comps hne hadm tmin step _ hs none fun m hm => by cases hm
+  rw [hfun]
+  exact hasSum_specPmfDisc comps hne hadm tmin step hs
+
 section pooled
 open MeasureTheory Set
 
@@ -278,6 +299,37 @@ theorem extraction_removed_flag (excl om : Bool) (tracks : List Track) (rows : L
   extract_removed' excl om tracks rows rem h
 
 example : extract false false [⟨0, 10, 1/4, [1, 2], none⟩] = none := by decide +kernel
+
+/-! ### legacy mode `observed_minimum=True` -/
+
+/-- option `observed_minimum=True` (legacy): the rows are — up to the stacking order of the kymographs — one per track
+    with positive duration (not touching the first/last line when ambiguous dwells are excluded), holding the track
+    duration, `groupMin`: the shortest such dwell of the track's OWN kymograph as minimum observation time, the
+    kymograph's total duration and the line time. -/
+theorem extraction_spec_observed_minimum (excl : Bool) (tracks : List Track) (hc : Consistent tracks)
+    (rows : List Row) (rem : Bool) (h : extract excl true tracks = some (rows, rem)) :
+    rows.Perm ((tracks.filter (keep excl)).map (specRowOm excl tracks)) :=
+  extract_rows_perm_om excl tracks hc rows rem h
+
+/-- `groupMin` (computed by the model as a running minimum, like `np.min`) is the least dwell time among the kept
+    tracks of the same kymograph: attained, and a lower bound — so every dwell handed over lies at or above the
+    minimum observation time handed over with it. -/
+theorem observed_minimum_is_least (excl : Bool) (tracks : List Track) (t : Track) (ht : t ∈ tracks)
+    (hk : keep excl t = true) :
+    (∃ u ∈ tracks, u.kymo = t.kymo ∧ keep excl u = true ∧ groupMin excl tracks t.kymo = specDuration u)
+    ∧ ∀ u ∈ tracks, u.kymo = t.kymo → keep excl u = true → groupMin excl tracks t.kymo ≤ specDuration u :=
+  groupMin_least excl tracks t ht hk
+
+/-- in the legacy mode the stored per-track minimum is never consulted: the extraction cannot refuse -/
+theorem extraction_observed_minimum_never_refuses (excl : Bool) (tracks : List Track) :
+    extract excl true tracks ≠ none :=
+  extract_om_ne_none excl tracks
+
+example : extract true true
+    [⟨0, 10, 1/4, [0, 1, 2], none⟩, ⟨1, 8, 1/2, [2, 3, 5], none⟩, ⟨0, 10, 1/4, [3, 4], none⟩,
+     ⟨0, 10, 1/4, [5, 8], some (1/4)⟩, ⟨1, 8, 1/2, [1, 2], none⟩]
+    = some ([⟨1/4, 1/4, 5/2, 1/4⟩, ⟨3/4, 1/4, 5/2, 1/4⟩, ⟨3/2, 1/2, 4, 1/2⟩, ⟨1/2, 1/2, 4, 1/2⟩], false) := by
+  decide +kernel
 
 /-! ## The analytic gradient (ext) -/
 
